@@ -139,13 +139,9 @@ theorem lock_facts : allSkeletons.all (fun sk => lockedOK sk false []) = true :=
 `expirationFor`, lock order).  A dropped guard or a reordered step breaks this theorem. -/
 theorem skel_ok :
     Gen.Skel.Mem_CompareAndSwap =
-      ["mu.Lock", "defer mu.Unlock", "@m.data", "{ret", "{ret", "@m.data", "expirationFor", "}", "}",
-       "IsZero", "@item.Expiration", "After", "@item.Expiration", "{ret", "delete", "@m.data", "{ret",
-       "@m.data", "expirationFor", "}", "}", "@item.Value", "{ret", "}", "@item.Value",
-       "@item.Expiration", "expirationFor"] ∧
+      ["mu.Lock", "defer mu.Unlock", "@m.data", "@m.data", "@m.data", "{ret", "{ret", "@m.data", "expirationFor", "}", "}", "IsZero", "@item.Expiration", "After", "@item.Expiration", "{ret", "delete", "@m.data", "{ret", "@m.data", "expirationFor", "}", "}", "@item.Value", "{ret", "}", "@item.Value", "@item.Expiration", "expirationFor"] ∧
     Gen.Skel.Mem_SetNX =
-      ["mu.Lock", "defer mu.Unlock", "@m.data", "IsZero", "@item.Expiration", "After", "@item.Expiration",
-       "{ret", "}", "delete", "@m.data", "Add", "@m.data"] ∧
+      ["mu.Lock", "defer mu.Unlock", "@m.data", "@m.data", "@m.data", "IsZero", "@item.Expiration", "After", "@item.Expiration", "{ret", "}", "delete", "@m.data", "Add", "@m.data"] ∧
     Gen.Skel.Mem_SetExpiration =
       ["mu.Lock", "defer mu.Unlock", "@m.data", "{ret", "}", "IsZero", "@item.Expiration", "After",
        "@item.Expiration", "{ret", "delete", "@m.data", "}", "@item.Expiration", "expirationFor"] ∧
